@@ -781,3 +781,7 @@ struct ReadTransactionCounterInner {
     read_transactions: Mutex<usize>,
     cvar: Condvar,
 }
+
+#[cfg(kani)]
+#[path = "/verif/units/kani/beatree_mod.rs"]
+mod verif_kani;
